@@ -424,7 +424,8 @@ def matrix_definitions() -> list[dict]:
                 "flex": [1, OPEN], "fields": fs, "common": []})
     # structures: inline, array, nullable, tagged, common structs used twice
     inner = lambda n: [_complete({"name": n + "Id", "t": "int32", "tk": "prim", "hasdefault": True, "default": aint(-1), "spelling": "-1"}),
-                       _complete({"name": n + "Epoch", "t": "int64", "tk": "prim", "hasdefault": True, "default": aint(-1), "spelling": "-1"})]
+                       _complete({"name": n + "Epoch", "t": "int64", "tk": "prim", "hasdefault": True, "default": aint(-1), "spelling": "-1"}),
+                       _complete({"name": n + "Label", "t": "string", "tk": "prim", "hasdefault": True, "default": {"blob": []}, "spelling": ""})]
     plain = lambda n: [_complete({"name": n + "Name", "t": "string", "tk": "prim"}),
                        _complete({"name": n + "Ids", "t": "int32", "tk": "parr", "versions": [1, OPEN]})]
     common = [{"name": "SharedThing", "versions": [0, OPEN], "fields": plain("Shared")}]
@@ -440,6 +441,13 @@ def matrix_definitions() -> list[dict]:
           _complete({"name": "SecondShared", "t": "SharedThing", "tk": "csarr", "versions": [1, OPEN]})]
     out.append({"id": "mxt", "kind": "request", "name": "MatrixStructRequest", "apiKey": 7, "valid": [0, 2],
                 "flex": [1, OPEN], "fields": fs, "common": common})
+    # a second definition declaring a common struct of the SAME name (as a request and its response do)
+    common2 = [{"name": "SharedThing", "versions": [0, OPEN], "fields": plain("Other")}]
+    fs2 = [_complete({"name": "Things", "t": "SharedThing", "tk": "csarr"}),
+           _complete({"name": "MoreThings", "t": "SharedThing", "tk": "csarr", "versions": [1, OPEN], "nullable": [1, OPEN]})]
+    out.append({"id": "mxu", "kind": "response", "name": "MatrixStructResponse", "apiKey": 7, "valid": [0, 11],
+                "flex": [10, OPEN], "fields": fs2 + [_complete({"name": "LateField", "t": "int16", "tk": "prim",
+                                                                 "versions": [3, 10]})], "common": common2})
     return out
 
 
